@@ -10,7 +10,10 @@ for d in sorted(glob.glob(os.path.join(V, "seeded", "C*_*"))):
     if name.split("_")[1] not in suf:
         continue
     m = json.load(open(os.path.join(d, "meta.json")))
-    if (rnd == "7") != (m.get("round") == 7):
+    if rnd:
+        if str(m.get("round", "")) != rnd:
+            continue
+    elif m.get("round") in (7, 8):
         continue
     c = m.get("confirmed_by_coordinator", {})
     what = " ".join(m.get("summary", "").split())
